@@ -17,6 +17,9 @@ def gen_modules(rng, n, depth=3):
         if r < 0.08:
             mods.append(genpf.shadow_module(rng))
             continue
+        if r < 0.14:
+            mods.append(genpf.same_print_module(rng))
+            continue
         if r < 0.28:
             mods.append(genpf.pf_module(rng, subs=rng.choice((0, 0, 1))))      # the propositional fragment (C02.propositional_module_accepted)
             continue
